@@ -1,7 +1,12 @@
 package main
 
+import "github.com/hedzr/logg/slog"
+
 // A call site whose file name (given by a //line directive) contains a quote and a backslash:
 // the caller field must still name it (C14), in every format.
 
 //line /verif/worker/we"ird\path.go:100
 func c14lineSite(e *c14env) (s c14site) { e.l.Info(mark(&s), "k", 1); return }
+
+// a tiny function of this (renamed) file that the compiler inlines into its callers in c14.go
+func c14otherFileInl(l slog.Logger) { l.Warn("m") }
